@@ -430,83 +430,6 @@ def adaptive_reject_rule(chk, src, rule):
     return n
 
 
-# ------------------------------------------------------------------------------------------ Runge-Kutta stage usage
-def rk_usage_rule(chk, src, rule):
-    fi = src.func(MPS, "Mps._evolve_prop_and_compress_tdrk.sub_time_step_evolve")
-    ps = fi.params()    # y, tau, t0
-    tau, t0, ci = sp.Symbol(ps[1]), sp.Symbol(ps[2]), sp.Symbol("c_i")
-    calls = [c for c in ast.walk(fi.node) if isinstance(c, ast.Call) and unparse(c.func) == "mpo_t"]
-    if len(calls) != 1:
-        raise AnalysisError(f"{fi.where}: stage Hamiltonian call mpo_t(...) not found")
-    targ = scalar_sym(calls[0].args[0], {ps[1]: tau, ps[2]: t0})
-    targ = targ.subs(sp.Symbol("c[istage]"), ci)
-    chk.ob(rule, "general RK: stage time = t0 + c_i * tau", sp.simplify(targ - (t0 + ci * tau)) == 0, fi.where, str(targ), "t0 + c_i*tau", line=calls[0].lineno,
-           detail="the Hamiltonian of stage i must be evaluated at t0 + c_i*tau; this only matters for time-dependent Hamiltonians in sub-steps with t0 != 0")
-    scales = [c for c in ast.walk(fi.node) if isinstance(c, ast.Call) and isinstance(c.func, ast.Attribute) and c.func.attr == "scale" and c.args]
-    txt = [unparse(c.args[0]).replace(" ", "") for c in scales]
-    want = {"a[istage,i]*tau": "stage increment a_ij*tau", "-1j": "derivative -i H y", "b[0,istage]*tau": "main weights b_0j*tau", "(b[0,istage]-b[1,istage])*tau": "embedded error (b_0j - b_1j)*tau"}
-    for w, what in want.items():
-        ok = w in txt
-        if not ok:
-            # semantic comparison for re-arranged products
-            for c in scales:
-                try:
-                    v = scalar_sym(c.args[0], {ps[1]: tau})
-                    ref = scalar_sym(ast.parse(w, mode="eval").body, {ps[1]: tau})
-                    if sp.simplify(v - ref) == 0:
-                        ok = True
-                except AnalysisError:
-                    pass
-        chk.ob(rule, f"general RK: {what}", ok, fi.where, txt, w, line=fi.node.lineno)
-    rng = [unparse(g.iter).replace(" ", "") for n in ast.walk(fi.node) if isinstance(n, ast.ListComp) for g in n.generators]
-    chk.ob(rule, "general RK: stage i uses k_j for j < i only", "range(istage)" in rng, fi.where, rng, "for i in range(istage)", line=fi.node.lineno)
-    flt = [unparse(i).replace(" ", "") for n in ast.walk(fi.node) if isinstance(n, ast.ListComp) for g in n.generators for i in g.ifs]
-    chk.ob(rule, "general RK: only exactly-zero coefficients are skipped", set(flt) <= {"a[istage,i]!=0", "b[0,istage]!=0", "notnp.allclose(b[0,istage],b[1,istage])"}, fi.where, flt,
-           "a[i,j] != 0 / b[0,j] != 0 / not allclose(b0, b1)")
-    # the hard-coded RK4 evolver against the C_RK4 tableau proved by C19
-    f4 = src.func(MPS, "Mps._evolve_prop_and_compress_tdrk4")
-    dt = sp.Symbol(f4.params()[2])
-    gt = src.func(RK, "RungeKutta.get_tableau")
-    envt = partial_eval_dispatch(gt.node, "self.method", "C_RK4", ())
-    a, b, c = envt["a"], envt["b"], envt["c"]
-    times = [scalar_sym(cl.args[0], {f4.params()[2]: dt}) for cl in ast.walk(f4.node) if isinstance(cl, ast.Call) and unparse(cl.func) == "mpo_t"]
-    times = sorted(times, key=lambda x: float(x.subs(dt, 1)))
-    want_t = sorted([sp.nsimplify(float(x)) * dt for x in c], key=lambda x: float(x.subs(dt, 1)))
-    chk.ob(rule, "RK4 evolver: stage times = c_i * dt of the C_RK4 tableau", [sp.simplify(x - y) for x, y in zip(times, want_t)] == [0] * 4 and len(times) == 4, f4.where, [str(t) for t in times],
-           [str(t) for t in want_t], line=f4.node.lineno)
-    incs = []
-    for n in ast.walk(f4.node):
-        if isinstance(n, ast.Assign) and unparse(n.targets[0]) == "tmp_mps" and isinstance(n.value, ast.BinOp):
-            for cl in ast.walk(n.value):
-                if isinstance(cl, ast.Call) and isinstance(cl.func, ast.Attribute) and cl.func.attr == "scale":
-                    incs.append((unparse(cl.func.value), scalar_sym(cl.args[0], {f4.params()[2]: dt})))
-    want_inc = [("k1", a[1][0]), ("k2", a[2][1]), ("k3", a[3][2])]
-    ok = len(incs) == 3 and all(nm == w[0] and sp.simplify(v - sp.nsimplify(float(w[1])) * dt) == 0 for (nm, v), w in zip(incs, want_inc))
-    chk.ob(rule, "RK4 evolver: stage increments = a_{i,i-1} * dt", ok, f4.where, [(nm, str(v)) for nm, v in incs], [(nm, f"{v}*dt") for nm, v in want_inc], line=f4.node.lineno)
-    fin = [cl for cl in ast.walk(f4.node) if isinstance(cl, ast.Call) and unparse(cl.func) == "compressed_sum"]
-    ws = []
-    if fin and isinstance(fin[0].args[0], ast.List):
-        for el in fin[0].args[0].elts[1:]:
-            if isinstance(el, ast.Call) and isinstance(el.func, ast.Attribute) and el.func.attr == "scale":
-                ws.append((unparse(el.func.value), scalar_sym(el.args[0], {f4.params()[2]: dt})))
-    okw = len(ws) == 4 and all(nm == f"k{i + 1}" and sp.simplify(v - sp.nsimplify(str(b[0][i])) * dt) == 0 for i, (nm, v) in enumerate(ws)) and unparse(fin[0].args[0].elts[0]) == "self"
-    chk.ob(rule, "RK4 evolver: weights = b_i * dt, first term the input state", okw, f4.where, [(nm, str(v)) for nm, v in ws], [str(x) + "*dt" for x in b[0]], line=f4.node.lineno)
-    # Taylor evolver uses (-i dt)^k * c_k
-    ft = src.func(MPS, "Mps._evolve_prop_and_compress")
-    dtn = ft.params()[2]
-    sc = [c for c in ast.walk(ft.node) if isinstance(c, ast.Call) and isinstance(c.func, ast.Attribute) and c.func.attr == "scale"]
-    assigns = {unparse(s.targets[0]): s.value for s in ast.walk(ft.node) if isinstance(s, ast.Assign) and isinstance(s.targets[0], ast.Name)}
-    okt = 0
-    for c in sc:
-        e = c.args[0]
-        if isinstance(e, ast.Name) and e.id in assigns:
-            e = assigns[e.id]
-        t = unparse(e).replace(" ", "")
-        if t in (f"(-1j*{dtn})**idx*propagation_c[idx]", "(-1j*dt)**idx*propagation_c[idx]"):
-            okt += 1
-    chk.ob(rule, "Taylor evolver: term k scaled by (-i dt)^k * c_k", okt == len(sc) and okt >= 2, ft.where, [unparse(c.args[0]) for c in sc], "(-1j*dt)**idx * propagation_c[idx]", line=ft.node.lineno)
-
-
 def must_compress_rule(chk, src, rule):
     for qual in ("Mps._evolve_prop_and_compress", "Mps._evolve_prop_and_compress_tdrk4", "Mps._evolve_prop_and_compress_tdrk"):
         fi = src.func(MPS, qual)
@@ -688,7 +611,8 @@ def run(chk):
     chk.rule("heff-network", "effective-Hamiltonian matvec == canonical network", 7)
     chk.rule("must-compress", "propagate-and-compress evolvers return compressed states", 7)
     chk.rule("adaptive-reject", "adaptive step controllers keep the pre-step state until the trial is accepted", 2)
-    chk.rule("rk-usage", "Runge-Kutta / Taylor coefficients are used as the tables prescribe", 10)
+    chk.rule("rk-usage", "abstract run of the propagate-and-compress evolvers in the free algebra of time-ordered operator words: one step of the general evolver is the Runge-Kutta "
+                         "formula of every tableau, an adaptive run is the composition of its accepted sub-steps with the prescribed error estimate, RK4 and Taylor evolvers equal their formulas", 16)
     krylov_rule(chk, src, "krylov-hermitian", [MPS, TEVO])
     solver_sibling_rule(chk, src, "solver-sibling")
     add_cases(chk, "heff-network", K.hop_expr_cases(src), "effective Hamiltonian")
@@ -696,16 +620,18 @@ def run(chk):
     adaptive_reject_rule(chk, src, "adaptive-reject")
     chk.rule("config-restore", "temporarily modified configuration objects are saved as copies before and restored after", 1)
     config_restore_rule(chk, src, "config-restore")
-    chk.rule("overlap-kernel", "transferMat (overlap matrices of the tangent-space equations) is the canonical <bra|ket> transfer step in both directions and ranks", 4)
-    from .C07 import transfer_cases
-    add_cases(chk, "overlap-kernel", transfer_cases(src), "overlap matrix kernel")
+    chk.rule("overlap-kernel", "transferMat (abstract run on abstract tensors) is the canonical <bra|ket> transfer step in both directions, ranks, with and without a separate bra", 8)
+    from .chain_rules import transfer_rule
+    transfer_rule(chk, src, "overlap-kernel")
     chk.rule("entry-gauge", "tangent-space schemes orthonormalise the state (centre at the sweep start) before building environments, for every direction flag; VMF may skip only with overlap matrices", 20)
     entry_gauge_rule(chk, src, "entry-gauge")
     chk.rule("step-doubling", "abstract run of the adaptive TDVP wrapper with scripted error estimates", 3)
     step_doubling_rule(chk, src, "step-doubling")
     chk.rule("relative-error-homogeneous", "adaptive error estimates divide norms of the same kind (both with or both without the scalar prefactor)", 3)
     relative_error_rule(chk, src, "relative-error-homogeneous")
-    rk_usage_rule(chk, src, "rk-usage")
+    from .chain_rules import pc_evolver_rule
+    from .C19 import tableaux_of_method_list
+    pc_evolver_rule(chk, src, "rk-usage", tableaux_of_method_list(src))
 
 
 META = {
